@@ -355,23 +355,29 @@ class HSym:
         ins = tuple(g.placeholder('x%d' % i) for i in range(n_inputs))
         n = FxNode(g, 'call_function', fn, (ins,) + tuple(extra_args))
         n.kwargs = dict(kwargs or {})
-        g.nodes.append(n)
+        g._nodes.append(n)
         return n
 
-    def fx_graph(self, spec):
-        """a torch.fx graph given as [(name, op, [input names], meta dict)]; returns (graph module, {name: node})"""
+    def fx_graph(self, spec, modules=None, list_args=()):
+        """a torch.fx graph given as [(name, op, [input names], meta dict)]; `modules` maps call_module targets to module objects
+        (Identity if absent); nodes named in `list_args` receive their inputs as ONE list argument.  Returns (graph module, {name: node})"""
         from .torchlib import FxGraphModule, FxNode
         gm = FxGraphModule()
         nodes = {}
+        modules = modules or {}
         for name, op, inputs, meta in spec:
             target = name.split('@')[0]              # 'layer@2' = second invocation of sub-module 'layer'
-            n = FxNode(gm.graph, op, target, tuple(nodes[i] for i in inputs), name.replace('@', '_'))
+            ins = tuple(nodes[i] for i in inputs)
+            n = FxNode(gm.graph, op, target, (list(ins),) if name in list_args else ins, name.replace('@', '_').replace('.', '_'))
             n.meta = dict(meta)
-            gm.graph.nodes.append(n)
+            gm.graph._nodes.append(n)
             nodes[name] = n
             if op == 'call_module' and target not in gm.mods:
-                gm.mods[target] = self.it.call(self.it.libs['torch'].nn.Identity, [], {})
+                gm.mods[target] = modules[target] if target in modules else self.it.call(self.it.libs['torch'].nn.Identity, [], {})
         return gm, nodes
+
+    def fx_module_names(self, gm):
+        return sorted(gm.mods.keys())
 
     def fx_run(self, gm, x):
         return gm.run(self.it, x)
